@@ -84,11 +84,12 @@ def make_renderers(env: "Env") -> Dict[str, Dict[str, Any]]:
 
 
 class Engine:
-    def __init__(self, env: Env, world: World, prop: str, via_add: bool = True) -> None:
+    def __init__(self, env: Env, world: World, prop: str, via_add: bool = True,
+                 pre: Optional[Dict[str, Any]] = None) -> None:
         self.env = env
         self.w = world
         self.prop = prop
-        self.real = realize(world, env.C, env.renderers, via_add=via_add)
+        self.real = realize(world, env.C, env.renderers, via_add=via_add, pre=pre)
         self.kinds = {h: d["kind"] for h, d in world.m.items()}
         self.keys_ever: set = set()
         self.colnames_ever: set = set()
